@@ -152,7 +152,7 @@ impl<'t> W<'t> {
                     if ar == 0 {
                         f
                     } else {
-                        let args: Vec<String> = (0..ar).map(|_| self.num_no_bare_fn(d - 1)).collect();
+                        let args: Vec<String> = (0..ar).map(|_| self.num(d - 1)).collect();
                         format!("{}({})", f, args.join(", "))
                     }
                 } else {
@@ -185,15 +185,6 @@ impl<'t> W<'t> {
                 }
             }
         }
-    }
-
-    /// numeric expression that is not a bare parameterless function (known finding: rejected inside argument lists)
-    fn num_no_bare_fn(&mut self, d: usize) -> String {
-        let saved: Vec<(String, usize)> = self.fns.clone();
-        self.fns.retain(|(_, a)| *a > 0);
-        let e = self.num(d);
-        self.fns = saved;
-        e
     }
 
     fn str(&mut self, d: usize) -> String {
@@ -426,7 +417,7 @@ impl<'t> W<'t> {
             15 => {
                 if !self.subs.is_empty() {
                     let (s, ar) = self.subs[self.t.choose(self.subs.len())].clone();
-                    let args: Vec<String> = (0..ar).map(|_| if self.t.chance(1, 2) { let v = self.nums.clone(); v[self.t.choose(v.len())].clone() } else { self.num_no_bare_fn(1) }).collect();
+                    let args: Vec<String> = (0..ar).map(|_| if self.t.chance(1, 2) { let v = self.nums.clone(); v[self.t.choose(v.len())].clone() } else { self.num(1) }).collect();
                     if args.is_empty() { self.emit(s) } else { self.emit(format!("{} {}", s, args.join(", "))) }
                 } else {
                     let e = self.num(1);
